@@ -195,11 +195,18 @@ func verifC03Ticks() {
 		first += nchanOf[g]
 		as.nchan += nchanOf[g]
 	}
+	// start-up skew: sampling may have ended at different points for the groups, so that a
+	// group's first queued packet is skew[g] packets after the common origin; the packets of
+	// the other groups that predate the latest start are trimmed away by the reader
+	skew := make([]int, ngroups)
+	if ngroups > 1 {
+		skew[vRange("skewgroup", 0, ngroups-1)] = vRange("skew", 0, vParam("maxskew", 2))
+	}
 	for k := 0; k < ngroups; k++ { // map insertion order is the iteration order under the engine
 		g := (k + order) % ngroups
 		grp := NewAbacoGroup(gis[g], AbacoUnwrapOptions{})
 		grp.seqnumsync = base[g]
-		grp.lastSN = base[g] - 1
+		grp.lastSN = base[g] + uint32(skew[g]) - 1
 		as.groups[gis[g]] = grp
 	}
 	as.groupKeysSorted = gis
@@ -211,6 +218,17 @@ func verifC03Ticks() {
 		vals    []int
 	}
 	hist := make([][]sent, ngroups) // hist[g][global seq]
+	for g := 0; g < ngroups; g++ {
+		for i := 0; i < skew[g]; i++ {
+			hist[g] = append(hist[g], sent{}) // before this group's start: never delivered, never filled
+		}
+	}
+	start := 0 // the common start = the latest first packet
+	for g := 0; g < ngroups; g++ {
+		if skew[g] > start {
+			start = skew[g]
+		}
+	}
 	prods := make([]*c03Producer, ngroups)
 	for g := 0; g < ngroups; g++ {
 		prods[g] = &c03Producer{as: as}
@@ -284,20 +302,20 @@ func verifC03Ticks() {
 	ch := 0
 	for g := 0; g < ngroups; g++ {
 		for c := 0; c < nchanOf[g]; c++ {
-			vCheck(len(out[ch]) == final*frames, "per-channel sample count = frames spanned by first through last sequence number")
-			if len(out[ch]) == final*frames {
-				for s := 0; s < final; s++ {
+			vCheck(len(out[ch]) == (final-start)*frames, "per-channel sample count = frames spanned by first through last sequence number")
+			if len(out[ch]) == (final-start)*frames {
+				for s := start; s < final; s++ {
 					if !hist[g][s].arrived {
 						continue
 					}
 					for f := 0; f < frames; f++ {
-						vCheck(out[ch][s*frames+f] == RawType(hist[g][s].vals[f*nchanOf[g]+c]), "sample of an arrived packet sits at its sequence position (groups stay aligned)")
+						vCheck(out[ch][(s-start)*frames+f] == RawType(hist[g][s].vals[f*nchanOf[g]+c]), "sample of an arrived packet sits at its sequence position (groups stay aligned)")
 					}
 				}
 			}
 			ch++
 		}
-		for s := 0; s < final; s++ {
+		for s := skew[g]; s < final; s++ {
 			if !hist[g][s].arrived {
 				lostTotal++
 			}
